@@ -362,6 +362,10 @@ def in_terms(I, a, b, node):
     if b.kind == 'cdict':
         parts = [eq_terms(I, a, k, node) for k, _ in b.t]
         return z3.Or(*parts) if parts else z3.BoolVal(False)
+    if b.kind == 'smap':
+        if a.kind != 'str':
+            return z3.BoolVal(False)
+        return z3.Select(b.t['has'], a.t)
     if b.kind == 'mdict':
         from .objects import mdict_key
         return z3.Select(b.t['has'], mdict_key(I, b, a, node))
